@@ -406,6 +406,51 @@ def check_class_level_state(repo: Repo, rep: Report, rule: str = "C13.no-shared-
     rep.ok(rule, "fickling/* classes", f"{n_cls} classes on the decompile/analysis path scanned; {n_attr} class-level mutable attribute(s) besides the import-time registries", "", nontrivial=False)
 
 
+# module-level containers that are registries filled while classes are being created (import time), never per pickle
+MODULE_LEVEL_REGISTRIES = {("fickling.fickle", "OPCODES_BY_NAME"), ("fickling.fickle", "OPCODE_INFO_BY_NAME")}
+
+
+def check_module_level_state(repo: Repo, rep: Report):
+    """A mutable object bound at module level and mutated from inside a function is process-wide state: caches keyed by
+    path/mtime, memo tables, 'already seen' sets.  Whatever a query answers from it depends on what was asked before."""
+    n_obj = 0
+    for m in repo.modules.values():
+        if m.name not in ("fickling.fickle", "fickling.analysis", "fickling.tracing", "fickling.loader", "fickling.pytorch", "fickling.exception"):
+            continue
+        for name, vals in m.assigns.items():
+            mutable = any(isinstance(v, (ast.List, ast.Dict, ast.Set, ast.ListComp, ast.DictComp, ast.SetComp)) or (isinstance(v, ast.Call) and ((dotted(v.func) or "") in FRESH_CTORS or (dotted(v.func) or "").split(".")[-1] in ("WeakKeyDictionary", "WeakValueDictionary", "OrderedDict", "defaultdict", "Counter", "deque")) and (dotted(v.func) or "") not in ("tuple", "frozenset")) for v in vals)
+            if not mutable or (m.name, name) in MODULE_LEVEL_REGISTRIES:
+                continue
+            n_obj += 1
+            writers = []
+            for f in repo.functions.values():
+                if f.kind == "module" or f.name == "__init_subclass__":
+                    continue
+                local = set(f.params()) | {t.id for n in body_walk(f.node) if isinstance(n, (ast.Assign, ast.AnnAssign, ast.For)) for t in store_targets(n) if isinstance(t, ast.Name)}
+                globs = {g for n in body_walk(f.node) if isinstance(n, ast.Global) for g in n.names}
+                for n in body_walk(f.node):
+                    hit = None
+                    if isinstance(n, ast.Call) and isinstance(n.func, ast.Attribute) and n.func.attr in MUTATORS:
+                        b = base_of(n.func.value)
+                        if isinstance(b, ast.Name) and b.id == name and (name not in local or name in globs) and repo.resolve_expr(f.module, b, ()) == f"{m.name}.{name}":
+                            hit = n
+                    if isinstance(n, (ast.Assign, ast.AugAssign, ast.Delete)):
+                        for t in store_targets(n):
+                            b = base_of(t)
+                            if isinstance(t, ast.Subscript) and isinstance(b, ast.Name) and b.id == name and (name not in local or name in globs) and repo.resolve_expr(f.module, b, ()) == f"{m.name}.{name}":
+                                hit = n
+                            if isinstance(t, ast.Name) and t.id == name and name in globs:
+                                hit = n
+                    if hit is not None:
+                        writers.append((f, hit))
+            if writers:
+                f, n = writers[0]
+                rep.bad("C13.no-shared-default", f"{m.name}.{name}", f"module-level-mutable:{name}", f"`{name}` is a module-level mutable object written from {f.qualname} (`{src(n)[:70]}`): state kept for the life of the process, so a later query (another pickle, the same file after it changed, another activation) is answered from what an earlier one left there", m.relpath, n.lineno)
+            else:
+                rep.ok("C13.no-shared-default", f"{m.name}.{name}", "module-level container never written from inside a function", f"{m.relpath}:{vals[0].lineno}", nontrivial=False)
+    rep.ok("C13.no-shared-default", "fickling/* modules", f"{n_obj} module-level mutable object(s) besides the import-time registries examined", "", nontrivial=False)
+
+
 def check_registry(repo: Repo, rep: Report):
     ab = repo.cls("fickling.analysis.Analysis")
     defining = sorted({c.module.name for c in repo.subclasses(ab, strict=True)})
@@ -534,6 +579,7 @@ def run(rep: Report, tier: str):
     check_hash_order(repo, rep)
     check_shared_default(repo, rep)
     check_class_level_state(repo, rep)
+    check_module_level_state(repo, rep)
     check_registry(repo, rep)
     check_process_state(repo, rep)
     check_one_shot(repo, rep)
